@@ -279,6 +279,9 @@ def parse_request(head):
     for ln in lines:
         if b"\r" in ln or b"\n" in ln:
             problems.append("bare CR or LF in line %r" % ln[:40])
+        elif any((c < 0x20 and c != 0x09) or c == 0x7F for c in ln):
+            # RFC 7230: field-value = VCHAR / SP / HTAB / obs-text; request-target has no control characters either
+            problems.append("control character in line %r" % ln[:40])
     rl = lines[0].split(b" ")
     if len(rl) != 3:
         raise HttpError("bad request line %r" % lines[0][:80])
